@@ -361,7 +361,13 @@ def main():
         sys.exit(1)
     quick = c.tier == "quick"
     n, docs = (30, 30) if quick else (400, 40)
-    rows = harness(hb, "c01-rows", n=n, docs=docs, seed=c.seed, tier=c.tier, timeout=7200)
+    rows = []
+    pinned_terms = os.path.join(VERIF, "corpus", "C01.sexp")
+    if os.path.exists(pinned_terms):
+        # hand-written terms for shapes the random generator rarely reaches (arrays of maps, maps of arrays,
+        # nested collections); processed first, the driver's schema store is redefined by the generated batch
+        rows += harness(hb, "c01-rows", file=pinned_terms, docs=24, seed=c.seed, tier=c.tier, timeout=3600)
+    rows += harness(hb, "c01-rows", n=n, docs=docs, seed=c.seed, tier=c.tier, timeout=7200)
     skips = {}
     for r in rows:
         if r[0] == "-" and r[1].startswith("skip"):
